@@ -299,6 +299,22 @@ func ruleDupTableHoldsOnlyIDs(c *chk.Ctx, d *dispatchModel) {
 			return false
 		})
 		c.Check(guarded, "PAIR.reserve", mu.Parent(), "duplicate table records only members with an id", mu.Pos(), "a member is entered into the per-batch duplicate table only on its id != \"\" edge", "a member without an id can be entered into the per-batch duplicate table: the second notification of a batch would be refused as a duplicate of the first and its handler never run")
+		// the table exists for every batch, whatever its size: it is never the nil map, and no
+		// test of the table itself (or of the batch's length) decides whether a member is recorded
+		missing := ""
+		for _, src := range c.P.Sources(mu.Map) {
+			if ir.IsNilConst(src) {
+				missing = "the table can be nil"
+			}
+		}
+		for _, cd := range c.P.CondsWithin(mu, d.checkAssign) {
+			if x, _, isCmp := ir.NilCompare(cd.V); isCmp {
+				if _, isMap := x.Type().Underlying().(*types.Map); isMap && missing == "" {
+					missing = "recording depends on a nil test of the table"
+				}
+			}
+		}
+		c.Check(missing == "", "PAIR.reserve", mu.Parent(), "duplicate table kept for every batch", mu.Pos(), "the per-batch duplicate table is always allocated and every member with an id is recorded in it", "a member with an id is not always recorded in the per-batch duplicate table ("+missing+"): for batches of some sizes two members with the same id would both be accepted and both handlers run")
 	})
 	_ = n
 }
